@@ -15,3 +15,10 @@ def c_expr(driver, prog, target="sql.sqlite", timeout_ms=20000):
                             bound=(8 if "op**" in feats else symdb.VBOUND))
     o.features = sorted(getattr(prog, "features", set()) | {"target:" + target})
     return o
+
+
+def c_equiv(driver, payload, target="sql.sqlite", k=2, timeout_ms=20000):
+    base, rw, kind = payload
+    o = symdb.check_equivalent(base, rw, driver, target=target, k=k, timeout_ms=timeout_ms)
+    o.features = ["target:" + target, "rewrite:" + kind.split("@")[0]]
+    return o
